@@ -1175,13 +1175,20 @@ impl ScriptedPolicy {
 fn check_trace_model(ctx: &mut Ctx, env: &Env, rng: &mut Rng, case: &Value) {
     // the machine with any number of merges in flight (`SysM`): starts over all / all but the
     // first segment of a register (so that merges overlap) and ends in arbitrary order
-    const MERGE_TOKS: [&str; 8] = ["mu", "mc", "mu1", "mc1", "e:0", "e:1", "e:2", "e:0"];
+    // `xc` / `xc1`: explicit merges of committed segments (always covered); explicit merges of
+    // uncommitted ones (`xu`) need `OkTraceM` and are not inserted
+    const MERGE_TOKS: [&str; 10] = ["mu", "mc", "mu1", "mc1", "xc", "xc1", "e:0", "e:1", "e:2", "e:0"];
     let mut toks: Vec<String> = vec![];
     for t in &env.evlog {
         while rng.chance(1, 3) {
             toks.push(rng.pick(&MERGE_TOKS).to_string());
         }
         toks.push(t.clone());
+        if t == "c" {
+            // `commit` writes meta.json through `committed_segment_metas`, which first drops the
+            // committed segments that have no live document left
+            toks.push("z".into());
+        }
     }
     for _ in 0..4 {
         toks.push("e:0".into());
